@@ -134,15 +134,33 @@ class LineFileBase(SeqProp):
                 try:
                     k = w[0]
                     if k == "new":
-                        f = self.make(variant, src, index); out.append("ok")
+                        if m.get("rel_chdir"):
+                            # the path is given relative to the working directory, which is somewhere else afterwards (only while
+                            # the object is constructed and while it is opened is it the file's directory): an opened file is the
+                            # file that was opened
+                            back = os.getcwd()
+                            os.chdir(os.path.dirname(src))
+                            try:
+                                f = self.make(variant, os.path.basename(src), index)
+                            finally:
+                                os.chdir(back)
+                        else:
+                            f = self.make(variant, src, index)
+                        out.append("ok")
                     elif k == "open":
                         # open() / the context-manager entry, in turn
-                        if len(out) % 2:
-                            f.open()
-                        elif f.__enter__() is not f:
-                            raise RuntimeError("__enter__ did not return the file object")
+                        back = os.getcwd()
+                        if m.get("rel_chdir"):
+                            os.chdir(os.path.dirname(src))
+                        try:
+                            if len(out) % 2:
+                                f.open()
+                            elif f.__enter__() is not f:
+                                raise RuntimeError("__enter__ did not return the file object")
+                        finally:
+                            os.chdir(back)
                         out.append("ok")
-                        if len(content) < 3000 and not any(o.startswith("ok") for o in out[1:-1]):
+                        if len(content) < 3000 and not any(o.startswith("ok") for o in out[1:-1]) and not m.get("rel_chdir"):
                             # copies of the opened file object are made, read and dropped: the object itself stays usable
                             try:
                                 cp = core.clone_probe(f, lambda o: (len(o), o.closed, [unwrap(o[i]) for i in range(min(len(o), 3))]),
@@ -544,7 +562,10 @@ class C11Prop(LineFileBase):
                         body.append(f"get {(last[-1] + 1) if last and -nl <= last[-1] + 1 < nl else ri()}")
                 else:
                     body.append("lines")
-            yield self.mk(variant, content, index, body)
+            c_ = self.mk(variant, content, index, body)
+            if rng.random() < 0.08 and body.count("open") == 0 and index[0] != "file":
+                c_.meta["rel_chdir"] = True  # relative path, the working directory is elsewhere after construction / opening
+            yield c_
 
 
 class C12Prop(LineFileBase):
